@@ -35,6 +35,27 @@ func main() {
 		os.Exit(cmdFunc(os.Args[2:]))
 	case "list":
 		os.Exit(cmdList(os.Args[2:]))
+	case "bridges":
+		v, err := setup("/repo", "quick")
+		if err != nil {
+			fmt.Fprintln(os.Stderr, err)
+			os.Exit(2)
+		}
+		var keys []string
+		for k := range v.bridges {
+			keys = append(keys, k)
+		}
+		sort.Strings(keys)
+		for _, k := range keys {
+			for _, b := range v.bridges[k] {
+				p := ""
+				for _, f := range b.path {
+					p += f.Name() + "."
+				}
+				fmt.Printf("%s  on %s = %s%s\n", k, b.typ, p, b.field.Name())
+			}
+		}
+		os.Exit(0)
 	default:
 		fmt.Fprintln(os.Stderr, "unknown command", os.Args[1])
 		os.Exit(2)
